@@ -320,7 +320,7 @@ func (g *G) setPK(t *Table) {
 			t.AutoIncCols = []string{c}
 			cc.Def = nil
 		}
-	default: // composite, in column order (the other order is a known finding)
+	default: // composite, one time out of three not in column order (C01-pk-order is fixed)
 		if len(cols) < 2 {
 			c := cols[0]
 			t.col(c).Null = false
@@ -330,7 +330,7 @@ func (g *G) setPK(t *Table) {
 		i := g.r.Intn(len(cols) - 1)
 		j := i + 1 + g.r.Intn(len(cols)-i-1)
 		a, b := cols[i], cols[j]
-		if g.allowKnown && g.r.Chance(1, 6) {
+		if g.r.Chance(1, 3) {
 			a, b = b, a
 		}
 		t.col(a).Null, t.col(b).Null = false, false
